@@ -12,7 +12,7 @@ FOCUS = {
     "C01": ["treat", "removal", "movement", "sei"], "C02": ["removal", "overpop", "movement", "mortality", "soil"],
     "C03": ["treat", "sei", "removal"], "C04": ["soil", "multi", "det", None], "C05": ["sei"],
     "C09": [None, "det", "removal"], "C10": ["treat"], "C11": ["mortality", "multi"],
-    "C12": ["removal", "det"], "C16": ["multi", "multi", "oversuit"], "C17": ["overpop", "movement"],
+    "C12": ["removal", "det"], "C16": ["multi", "multi", "oversuit", "lonecell"], "C17": ["overpop", "movement"],
 }
 OWN_STREAM = set(FOCUS)
 
@@ -605,6 +605,37 @@ def mon_C12(ctx, k, sc, tr, stats):
                 if not (0 <= pq <= 1):
                     ctx.violation("C12.establish.probability_range", "establishment probability %s outside [0,1]" % p, sc.text)
                     return
+    # the probability of every establishment test is the documented one for the state of the
+    # destination cell at that moment: susceptible / total population x weather coefficient x the
+    # host's susceptibility in the table the pool has NOW (single host, dispersers arriving through
+    # a kernel; susceptibles are consumed one by one as dispersers establish)
+    if sc.nhosts == 1 and not sc.use["soils"] and sc.kv["arrival"][0] == "infect":
+        susc = sc.pht[0][0] if (sc.entry == "pools" and 0 in sc.pht) else Fraction(1)   # no table through the raster entry point
+        for prev, step, tag, idx, st in iter_pairs(sc, tr):
+            if tag != "spread":
+                continue
+            weather = sc.weathers[step % len(sc.weathers)] if sc.use["weather"] and sc.weathers else None
+            S = [c["S"] for c in prev["hosts"][0]]
+            cur = None
+            for ev in tr["tapes"].get(step, []):
+                if ev.startswith("kernel:"):
+                    _, r, c, tr_, tc = ev.split(":")
+                    tr_, tc = int(tr_), int(tc)
+                    cur = tr_ * sc.cols + tc if (0 <= tr_ < sc.rows and 0 <= tc < sc.cols) else None
+                elif ev.startswith("establish:") and cur is not None:
+                    _, t, p, r = ev.split(":")
+                    if sc.totpop[cur] > 0:
+                        exp_p = Fraction(S[cur], sc.totpop[cur]) * susc * (weather[cur] if weather else 1)
+                        stats["establish_probabilities"] = stats.get("establish_probabilities", 0) + 1
+                        if abs(parse_q(p) - exp_p) > Fraction(1, 10 ** 9):   # the logged value is a binary64 number
+                            ctx.violation("C12.establish.probability", "step %d cell %d: establishment tested with probability %s, documented susceptible/population x weather x susceptibility = %d/%d x %s x %s = %s" %
+                                          (step, cur, p, S[cur], sc.totpop[cur], weather[cur] if weather else 1, susc, exp_p), sc.text)
+                            return
+                    if r == "1":
+                        S[cur] -= 1
+                    cur = None
+                elif not ev.startswith(("generate:", "draw:")):
+                    cur = None if ev.startswith(("soil_", "okernel:")) else cur
 
 
 def parse_q(s):
@@ -630,6 +661,12 @@ def mon_C05(ctx, k, sc, tr, stats):
         for h in range(len(st["hosts"])):
             for i in range(sc.ncell):
                 p, c = prev["hosts"][h][i], st["hosts"][h][i]
+                if c["TE"] != sum(c["E"]) and p["TE"] == sum(p["E"]):
+                    # the hosts the model counts as exposed are exactly those inside their latency
+                    # window (the cohorts): a host counted as exposed but in no cohort never becomes infected
+                    ctx.violation("C05.exposed_count.%s" % tag, "step %d after %s: host %d cell %d counts %d exposed hosts, the cohorts hold %d: %s -> %s" %
+                                  (step, tag, h, i, c["TE"], sum(c["E"]), fmt_cell(p), fmt_cell(c)), sc.text)
+                    return
                 if tag == "step_forward":
                     stats["cohort_shifts"] = stats.get("cohort_shifts", 0) + 1
                     old = p["E"]
